@@ -41,7 +41,12 @@ func init() {
 
 var errTok = errors.New("result-error-token")
 
+var errWrapsCanceled = fmt.Errorf("result-error wrapping: %w", context.Canceled)
+
 func resultErr(k int) error {
+	if k >= 4 {
+		return errWrapsCanceled
+	}
 	switch k % 4 {
 	case 1:
 		return errTok
@@ -169,7 +174,7 @@ func promiseRaceCase(c *mon.Case) {
 	}
 	pre := r.IntN(10) == 0 && nSet > 0
 	var p *promise.Promise[int]
-	preErr := resultErr(r.IntN(4))
+	preErr := resultErr(r.IntN(5))
 	if pre {
 		p = promise.NewPromiseWithResult(999, preErr)
 	} else {
@@ -190,7 +195,7 @@ func promiseRaceCase(c *mon.Case) {
 	var swg sync.WaitGroup
 	for i := 1; i <= nSet; i++ {
 		i := i
-		errOf[i] = resultErr(r.IntN(4))
+		errOf[i] = resultErr(r.IntN(5))
 		if errOf[i] == context.Canceled || errOf[i] == context.DeadlineExceeded {
 			c.NonTrivial()
 			c.Count("sentinel_error_results", 1)
@@ -311,7 +316,7 @@ func promiseGatedCase(c *mon.Case) {
 			returned.Add(1)
 		})
 	}
-	e1 := resultErr(r.IntN(4))
+	e1 := resultErr(r.IntN(5))
 	var first atomic.Int64
 	c.Go("s1", func() {
 		c.Rec("s1", "call SetResult(1)", nil)
@@ -378,7 +383,7 @@ func containerCase(c *mon.Case) {
 	perr := make([]error, nProm+1)
 	for i := 1; i <= nProm; i++ {
 		proms[i] = promise.NewPromise[int]()
-		perr[i] = resultErr(r.IntN(4))
+		perr[i] = resultErr(r.IntN(5))
 	}
 	type step struct {
 		kind string
@@ -407,7 +412,7 @@ func containerCase(c *mon.Case) {
 			// container.SetResult installs a fresh resolved promise; model it as a new index
 			nProm++
 			proms = append(proms, nil)
-			perr = append(perr, resultErr(r.IntN(4)))
+			perr = append(perr, resultErr(r.IntN(5)))
 			script = append(script, step{"setresult", nProm})
 			resolved[nProm] = true
 			cur = nProm
@@ -687,6 +692,10 @@ func onceCase(c *mon.Case) {
 			oc.val = 100 + n
 		case 1:
 			oc.err = fmt.Errorf("fn-error-%d", n)
+			if n%3 == 0 {
+				// an error that wraps a cancellation (of something else) is an error like any other
+				oc.err = fmt.Errorf("fn-error-%d: %w", n, context.Canceled)
+			}
 		default:
 			select {
 			case <-ctx.Done():
